@@ -56,12 +56,22 @@ fn fen_empty_squares(input: &str) -> IResult<&str, Vec<Option<Piece>>> {
 }
 
 fn fen_line(input: &str) -> IResult<&str, FenRank> {
-    let (input, squares) = many1(alt((
+    let (rest, squares) = many1(alt((
         map(fen_piece, |p| vec![Some(p); 1]),
         fen_empty_squares,
     )))(input)?;
 
-    Ok((input, FenRank(squares.concat())))
+    let squares = squares.concat();
+
+    // Each rank must describe exactly one square per file
+    if squares.len() != File::N {
+        return Err(nom::Err::Error(nom::error::Error::new(
+            input,
+            nom::error::ErrorKind::Verify,
+        )));
+    }
+
+    Ok((rest, FenRank(squares)))
 }
 
 fn fen_position(input: &str) -> IResult<&str, Board> {
